@@ -369,3 +369,58 @@ package runtimev2
 //@ ensures step > 0 && start < end ==> result <= end - start
 //@ ensures step < 0 && start > end ==> result <= start - end
 //@ ensures !(step > 0 && start < end) && !(step < 0 && start > end) ==> result == 0
+
+// ---- operands: evaluated left to right, each read from the register right after its evaluation,
+// handed to the kernel in that order; && / || short-circuit only on a boolean left operand ----------
+//@ spec opnd0() V = callres((*PlReg).GetRet, 0, 0)
+//@ spec opnd1() V = callres((*PlReg).GetRet, 1, 0)
+
+//@ func RunConditionExpr
+//@ ensures[C18] ncalls(RunExpr) >= 1 && callarg(RunExpr, 0, 1) == expr.LHS
+//@ ensures[C18] ncalls(RunExpr) == 2 ==> callarg(RunExpr, 1, 1) == expr.RHS && callseq(RunExpr, 0) < callseq((*PlReg).GetRet, 0) && callseq((*PlReg).GetRet, 0) < callseq(RunExpr, 1)
+//@ ensures[C18] result == nil && ncalls(condOp) == 1 ==> ncalls(RunExpr) == 2 && callarg(condOp, 0, 0) == opnd0() && callarg(condOp, 0, 1) == opnd1() && callarg(condOp, 0, 2) == expr.Op && callres(condOp, 0, 2) == nil && ncalls((*PlReg).ReturnAppend) == 1
+//@ ensures[C18] result == nil && ncalls(condOp) == 0 ==> ncalls(RunExpr) == 1 && opnd0().T == ast.Bool && (expr.Op == ast.OR || expr.Op == ast.AND)
+//@ ensures[C18] ncalls(condOp) == 1 && callres(condOp, 0, 2) != nil ==> result != nil
+
+//@ func RunArithmeticExpr
+//@ ensures[C18] ncalls(RunExpr) >= 1 && callarg(RunExpr, 0, 1) == expr.LHS
+//@ ensures[C18] result == nil ==> ncalls(RunExpr) == 2 && callarg(RunExpr, 1, 1) == expr.RHS && callseq(RunExpr, 0) < callseq((*PlReg).GetRet, 0) && callseq((*PlReg).GetRet, 0) < callseq(RunExpr, 1) && callseq(RunExpr, 1) < callseq((*PlReg).GetRet, 1)
+//@ ensures[C18] ncalls(arithOpInt) == 1 ==> callarg(arithOpInt, 0, 0) == callres(cast.ToInt64, 0, 0) && callarg(arithOpInt, 0, 1) == callres(cast.ToInt64, 1, 0) && callarg(cast.ToInt64, 0, 0) == opnd0().V && callarg(cast.ToInt64, 1, 0) == opnd1().V && callarg(arithOpInt, 0, 2) == expr.Op && opnd0().T != ast.Float && opnd1().T != ast.Float && opnd0().T != ast.String && opnd1().T != ast.String
+//@ ensures[C18] ncalls(arithOpFloat) == 1 ==> same(callarg(arithOpFloat, 0, 0), callres(cast.ToFloat64, 0, 0)) && same(callarg(arithOpFloat, 0, 1), callres(cast.ToFloat64, 1, 0)) && callarg(cast.ToFloat64, 0, 0) == opnd0().V && callarg(cast.ToFloat64, 1, 0) == opnd1().V && callarg(arithOpFloat, 0, 2) == expr.Op && (opnd0().T == ast.Float || opnd1().T == ast.Float)
+//@ ensures[C18] result == nil ==> ncalls(arithOpInt) + ncalls(arithOpFloat) <= 1 && ncalls((*PlReg).ReturnAppend) == 1
+//@ ensures[C18] (ncalls(arithOpInt) == 1 && callres(arithOpInt, 0, 2) != nil) || (ncalls(arithOpFloat) == 1 && callres(arithOpFloat, 0, 2) != nil) ==> result != nil
+
+//@ func RunUnaryExpr
+//@ ensures[C18] ncalls(RunExpr) <= 1 && (ncalls(RunExpr) == 1 ==> callarg(RunExpr, 0, 1) == expr.RHS)
+//@ ensures[C18] result == nil ==> ncalls(RunExpr) == 1 && ncalls((*PlReg).ReturnAppend) == 1 && (expr.Op == ast.SUB || expr.Op == ast.ADD || expr.Op == ast.NOT)
+
+//@ func RunInExpr
+//@ ensures[C18] ncalls(RunExpr) >= 1 && callarg(RunExpr, 0, 1) == expr.LHS
+//@ ensures[C18] result == nil ==> ncalls(RunExpr) == 2 && callarg(RunExpr, 1, 1) == expr.RHS && ncalls((*PlReg).ReturnAppend) == 1
+
+// an evaluator that computes a value writes it itself, exactly once, as its last register operation
+// on every successful path (so what a consumer reads is this result, not an operand's value)
+//@ func searchListAndMap
+//@ ensures[C18] result == nil ==> ncalls((*PlReg).ReturnAppend) == 1
+//@ loop 1
+//@ invariant[C18] ncalls((*PlReg).ReturnAppend) == 0
+//@ func RunListInitExpr
+//@ ensures[C18] result == nil ==> ncalls((*PlReg).ReturnAppend) == 1 && ncalls(RunExpr) == tomath(len(expr.List))
+//@ loop 1
+//@ invariant[C18] ncalls((*PlReg).ReturnAppend) == 0 && ncalls(RunExpr) == tomath(rangeindex) + 1
+//@ func RunMapInitExpr
+//@ ensures[C18] result == nil ==> ncalls((*PlReg).ReturnAppend) == 1 && ncalls(RunExpr) == 2 * tomath(len(expr.KeyValeList))
+//@ loop 1
+//@ invariant[C18] ncalls((*PlReg).ReturnAppend) == 0 && ncalls(RunExpr) == 2 * (tomath(rangeindex) + 1)
+//@ func RunSliceExpr
+//@ ensures[C18] result == nil ==> ncalls((*PlReg).ReturnAppend) == 1
+//@ loop 1
+//@ invariant[C18] ncalls((*PlReg).ReturnAppend) == 0
+//@ loop 2
+//@ invariant[C18] ncalls((*PlReg).ReturnAppend) == 0
+//@ loop 3
+//@ invariant[C18] ncalls((*PlReg).ReturnAppend) == 0
+//@ loop 4
+//@ invariant[C18] ncalls((*PlReg).ReturnAppend) == 0
+//@ func RunIndexExprGet
+//@ ensures[C18] result == nil ==> ncalls(searchListAndMap) == 1 && callres(searchListAndMap, 0, 0) == nil
